@@ -57,7 +57,9 @@ static int mmd1_test(HIO_HANDLE *f, char *t, const int start)
 		len = hio_read32b(f);
 		if (len > XMP_NAME_SIZE - 1)	/* the loader takes an oversized length as "as much as fits" */
 			len = XMP_NAME_SIZE - 1;
-		hio_seek(f, start + offset, SEEK_SET);
+		/* like the loader: a signed offset, and no name if it cannot be reached */
+		if (hio_seek(f, start + (int32)offset, SEEK_SET) < 0)
+			len = 0;
 		libxmp_read_title(f, t, len);
 	} else {
 		libxmp_read_title(f, t, 0);
@@ -296,7 +298,8 @@ static int mmd1_load(struct module_data *m, HIO_HANDLE *f, const int start)
 		D_(D_INFO "songname_offset = 0x%08x", songname_offset);
 		D_(D_INFO "expdata.songnamelen = %d", expdata.songnamelen);
 
-		hio_seek(f, start + songname_offset, SEEK_SET);
+		if (hio_seek(f, start + songname_offset, SEEK_SET) < 0)
+			expdata.songnamelen = 0;
 		for (i = 0; i < expdata.songnamelen; i++) {
 			if (i >= XMP_NAME_SIZE - 1)	/* keep the terminating NUL */
 				break;
